@@ -2,7 +2,8 @@
    duplicates and is exactly the set of nodes below the root accepted by PathMatcher::MatchesPath.
 
    Premises (Section hypotheses, they become premises of every theorem):
-     ckeys_sound / ckeys_complete : a clause that reports lookup keys matches exactly those names (C15)
+     ckeys_sound / ckeys_complete : a clause that reports lookup keys matches exactly those names (C15); soundness is
+                                    only needed of the names that occur in the tree ([okname]: e.g. non-empty strings)
      tree_wf t                    : node paths distinct and non-empty, parents present
      matcher_wf m                 : group keys distinct, an entry sits in the group of its clause count *)
 From Coq Require Import List NArith ZArith Bool Arith Lia.
@@ -64,7 +65,8 @@ Qed.
 
 Section Props.
 Context {M : MatchOps}.
-Hypothesis ckeys_sound : forall (c : clause) (ks : list name) (k : name), ckeys c = Some ks -> cmatch c k = true -> In k ks.
+Variable okname : name -> Prop.
+Hypothesis ckeys_sound : forall (c : clause) (ks : list name) (k : name), okname k -> ckeys c = Some ks -> cmatch c k = true -> In k ks.
 Hypothesis ckeys_complete : forall (c : clause) (ks : list name) (k : name), ckeys c = Some ks -> In k ks -> cmatch c k = true.
 Variable t : tree.
 Variable m : matcher.
@@ -73,6 +75,7 @@ Variable use_filters : bool.
 Variable guard_fixed : bool.
 Hypothesis TWF : tree_wf t.
 Hypothesis MWF : matcher_wf m.
+Hypothesis NOK : forall n, In n t -> Forall okname (n_path n).
 
 Local Notation rd := (length root).
 Local Notation ACT := (actions m rd use_filters guard_fixed).
@@ -313,6 +316,8 @@ Proof.
       assert (X : existsb (fun e => is_wild (clause_at e rel)) (active m rel) = true) by (apply existsb_exists; now exists e).
       congruence. }
     unfold is_wild in Hnw. destruct (ckeys (clause_at e rel)) as [ks|] eqn:Hk; [|discriminate].
+    assert (Hok : okname k).
+    { assert (F := NOK c Hc). rewrite Hp in F. rewrite Forall_forall in F. apply F. apply in_or_app. right. now left. }
     assert (Hin : In k (keys_of e rel)) by (unfold keys_of; rewrite Hk; now apply (ckeys_sound (clause_at e rel) ks)).
     assert (Hg : get_child t x k = Some c) by (apply get_child_in; [apply TWF | assumption | assumption]).
     destruct (I3 e k c He Hin Hg) as [Hx|Hx]; [discriminate|].
@@ -563,7 +568,8 @@ End MatcherWf.
 
 Section Main.
 Context {M : MatchOps}.
-Hypothesis ckeys_sound : forall (c : clause) (ks : list name) (k : name), ckeys c = Some ks -> cmatch c k = true -> In k ks.
+Variable okname : name -> Prop.
+Hypothesis ckeys_sound : forall (c : clause) (ks : list name) (k : name), okname k -> ckeys c = Some ks -> cmatch c k = true -> In k ks.
 Hypothesis ckeys_complete : forall (c : clause) (ks : list name) (k : name), ckeys c = Some ks -> In k ks -> cmatch c k = true.
 
 Lemma visits_V : forall t m root uf gf, visits t m root uf gf = V t m (length root) uf gf (S (max_clauses m)) root.
@@ -578,11 +584,11 @@ Definition selected (t : tree) (m : matcher) (root : path) (use_filters : bool) 
   matches_path m (skipn (length root) (n_path n)) (if use_filters then Some (n_data n) else None) = true.
 
 Theorem traversal_eq_bruteforce_lemma : forall t m root use_filters,
-  tree_wf t -> matcher_wf m ->
+  tree_wf t -> matcher_wf m -> (forall n, In n t -> Forall okname (n_path n)) ->
   NoDup (map n_path (visits t m root use_filters true)) /\
   (forall n, In n (visits t m root use_filters true) <-> selected t m root use_filters n).
 Proof.
-  intros t m root uf TWF MWF. rewrite visits_V. split.
+  intros t m root uf TWF MWF NOK. rewrite visits_V. split.
   - now apply V_nodup.
   - intros n. unfold selected. split.
     + intros H. destruct (V_below t m root uf true _ _ _ H) as [Hn Hb].
@@ -592,7 +598,7 @@ Proof.
       * rewrite app_nil_r. exact H.
     + intros [Hn [[r [Hr Hp]] Hbf]].
       assert (X : In n (V t m (length root) uf true (S (max_clauses m)) (root ++ []))).
-      { apply (V_complete ckeys_sound t m root uf true TWF MWF _ [] r n); try assumption. cbn. lia. }
+      { apply (V_complete okname ckeys_sound t m root uf true TWF MWF NOK _ [] r n); try assumption. cbn. lia. }
       rewrite app_nil_r in X. exact X.
 Qed.
 
